@@ -67,3 +67,14 @@ PROPS['C04'] = {
     'outside': ['actual unwinding (K has panic=abort): engine M'],
     'assumptions': [],
 }
+
+PROPS['C07'] = {
+    'kani': {
+        'quick': [krun(['c07::q::'], timeout=900, bounds='N in {0,1,2,3,5}; item count c symbolic in 0..=N+3; size_hint (lo, hi?) unconstrained (exact, loose, absent, lying either way); non-fused source; stack and boxed forms')],
+        'thorough': [krun(['c07::'], timeout=2400, bounds='N in 0..=8')],
+    },
+    'functions': ['GenericArray::try_from_iter', 'GenericArray::try_boxed_from_iter', 'FromIterator for GenericArray / Box<GenericArray>', 'IntrusiveArrayBuilder::{extend,is_full,finish}'],
+    'bounds': 'K: N <= 5 (thorough 8); item count 0..=N+3 and both size_hint bounds fully symbolic.',
+    'outside': ['sources that panic (C04, engine M)', 'the text of the panic message (Kani does not model formatted panic messages)', 'N > 8'],
+    'assumptions': ['count <= N+3'],
+}
